@@ -23,15 +23,17 @@ typedef struct {
     pixman_format_code_t fmt; int w, h, ox, oy;
     uint32_t *copy; int stride;         /* the monitor's private copy of the inserted pixels */
     long used;                          /* recency stamp of the last DEFINITE use (insert) */
+    long removed_clock;                 /* value of insert_clock when the key was last removed / evicted (-1: not since the table was last emptied) */
     long used_hi;                       /* last POSSIBLE use: a draw call that was given the glyph (it may have been clipped away, which does not count as a use) */
 } entry_t;
 static entry_t *ent; static int nkeys;
 static long stamp; static int live_count; static long removes_total; static int freeze_depth;
+static long insert_clock;            /* number of successful inserts so far */
 
 static void *fkey (int k) { return (void *)(uintptr_t)(0x1000 + (k % 7) * 0x10); }
 static void *gkey (int k) { return (void *)(uintptr_t)(0x40 + k * 8); }
 
-static void drop_entry (entry_t *e) { free (e->copy); e->copy = NULL; e->live = 0; e->handle = NULL; }
+static void drop_entry (entry_t *e) { free (e->copy); e->copy = NULL; e->live = 0; e->handle = NULL; e->removed_clock = insert_clock; }
 
 static pixman_format_code_t glyph_formats[] = { PIXMAN_a8, PIXMAN_a8, PIXMAN_a8, PIXMAN_a1, PIXMAN_a4, PIXMAN_a8r8g8b8, PIXMAN_a8r8g8b8, PIXMAN_x8r8g8b8, PIXMAN_r5g6b5,
     PIXMAN_a8b8g8r8, PIXMAN_b8g8r8a8, PIXMAN_a8r8g8b8_sRGB, PIXMAN_a4r4g4b4, PIXMAN_a1r5g5b5, PIXMAN_a2r10g10b10 };
@@ -60,6 +62,12 @@ static int do_insert (pixman_glyph_cache_t *c, int k, vf_rng *r, int tiny)
             vf_violation ("C17:insert-refused-with-room", "insert refused with %d live entries and at most %ld tombstones in a table of %d slots (high water %d)", live_count, removes_total, 2 * HW, HW);
         free (e->copy); e->copy = NULL; return 0;
     }
+    /* A key that is inserted again before ANY other insert has happened since it was removed finds its old slot still a tombstone, and every slot before
+     * it on its probe path occupied (they were when it was first placed, and slots are only emptied when the whole table is): the insert lands on a
+     * tombstone, so the number of tombstones is back to what it was before the removal.  Keeps the upper bound on tombstones from drifting in
+     * remove/re-insert churn (assumes what the tombstone scheme is: an insert takes the first free-or-tombstone slot of a per-key probe sequence). */
+    if (e->removed_clock == insert_clock && e->removed_clock >= 0 && removes_total > 0) removes_total--;
+    insert_clock++;
     e->live = 1; e->handle = hnd; e->used = e->used_hi = ++stamp; live_count++;
     return 1;
 }
@@ -103,7 +111,7 @@ static void after_thaw (pixman_glyph_cache_t *c)
         if (survivors != LOW) vf_violation ("C17:eviction-wrong-count", "thaw left %d entries (from %d, at most %ld tombstones); eviction goes down to the low-water mark %d and the table is dumped only with more than %d tombstones", survivors, live_count, removes_total, LOW, HW);
     }
     for (int k = 0; k < nkeys; k++) if (ent[k].live && !alive[k]) { drop_entry (&ent[k]); live_count--; removes_total++; }      /* an eviction leaves a tombstone like a removal */
-    if (survivors == 0) removes_total = 0;       /* a dumped / emptied table has no tombstones */
+    if (survivors == 0) { removes_total = 0; for (int k = 0; k < nkeys; k++) ent[k].removed_clock = -1; }       /* a dumped / emptied table has no tombstones */
 }
 
 static pixman_image_t *glyph_image_from_copy (entry_t *e)
@@ -217,7 +225,7 @@ static void glyph_case (long idx, vf_rng *r)
     int filling = HW > 64 ? (idx % 64 == 0) : 0;      /* production-size table: a few table-filling histories */
     nkeys = HW <= 64 ? 3 * HW + 4 : (filling ? 2 * HW + 40 : 60);
     if (nkeys > MAXK) nkeys = MAXK;
-    memset (ent, 0, sizeof (entry_t) * nkeys); stamp = 0; live_count = 0; removes_total = 0; freeze_depth = 0;
+    memset (ent, 0, sizeof (entry_t) * nkeys); for (int k_ = 0; k_ < nkeys; k_++) ent[k_].removed_clock = -1; stamp = 0; live_count = 0; removes_total = 0; freeze_depth = 0;
     pixman_glyph_cache_t *c = pixman_glyph_cache_create (); if (!c) return;
     int steps = filling ? 2 * HW + 200 : 200;
     char hist[400]; int hk = 0; hist[0] = 0;
@@ -244,6 +252,16 @@ static void glyph_case (long idx, vf_rng *r)
                 /* the neighbours of a removed entry must still be found */
                 for (int j = 0; j < 6; j++) check_lookup (c, (int)(vf_next (r) % nkeys)); }
         } else if (op <= 12) check_lookup (c, k);
+        else if (op == 15 && !filling && freeze_depth > 0 && ent[k].live && HW <= 64) {
+            /* churn: one key removed and inserted again, many times over (a client re-rendering one glyph): the cache holds no more afterwards than before */
+            int R = (int)vf_range (r, HW, 3 * HW); vf_count ("churn_runs", 1);
+            if (hk < 380) hk += snprintf (hist + hk, sizeof hist - hk, "churn(k%d x%d) ", k, R);
+            for (int q = 0; q < R; q++) {
+                pixman_glyph_cache_remove (c, fkey (k), gkey (k)); drop_entry (&ent[k]); live_count--; removes_total++; vf_count ("removes", 1);
+                if (!do_insert (c, k, r, 0)) break;
+            }
+            check_lookup (c, k);
+        }
         else if (!filling && freeze_depth > 0) draw_check (c, r);
     }
     /* all live entries still resolve */
@@ -266,7 +284,7 @@ static int EXL;
 static void exhaustive_case (long idx, vf_rng *r)
 {
     enum { NK = 6, NSYM = 2 + 2 * NK };
-    nkeys = NK; memset (ent, 0, sizeof (entry_t) * nkeys); stamp = 0; live_count = 0; removes_total = 0; freeze_depth = 0;
+    nkeys = NK; memset (ent, 0, sizeof (entry_t) * nkeys); for (int k_ = 0; k_ < nkeys; k_++) ent[k_].removed_clock = -1; stamp = 0; live_count = 0; removes_total = 0; freeze_depth = 0;
     pixman_glyph_cache_t *c = pixman_glyph_cache_create (); if (!c) return;
     pixman_glyph_cache_freeze (c); freeze_depth = 1;
     char hist[120]; int hk = 0; hist[0] = 0; long code = idx; int nontrivial = 0;
